@@ -327,13 +327,24 @@ func ErrNilEdge(call *ssa.Call, wantNil bool) EdgeFilter {
 // the call itself (single result), the Extract of its last result, or a load
 // of a local cell into which that result was stored.
 func errValueMatcher(call *ssa.Call) func(v ssa.Value) bool {
-	direct := func(v ssa.Value) bool {
+	var direct func(v ssa.Value) bool
+	direct = func(v ssa.Value) bool {
 		v = stripConv(v)
 		if v == ssa.Value(call) {
 			return true
 		}
 		if ex, ok := v.(*ssa.Extract); ok && ex.Tuple == ssa.Value(call) {
 			return true
+		}
+		if ph, ok := v.(*ssa.Phi); ok {
+			for _, e := range ph.Edges {
+				if _, isPhi := e.(*ssa.Phi); isPhi {
+					continue
+				}
+				if direct(e) {
+					return true
+				}
+			}
 		}
 		return false
 	}
